@@ -108,6 +108,12 @@ def plain(sensors, typed=False):
     f = strict if typed else (lambda v: v)
     out = {}
     for nid, s in sensors.items():
+        if not all(hasattr(s, a) for a in ("sensor_id", "children", "battery_level", "heartbeat")) or \
+                not all(hasattr(ch, "values") and hasattr(ch, "id") for ch in getattr(s, "children", {}).values()):
+            # not a Sensor (e.g. a raw dict left by a decoder that did not rebuild the object)
+            out[f(nid)] = {"id": ("not-a-sensor", type(s).__name__), "type": None, "pv": None, "bat": None, "sn": None,
+                           "sv": None, "hb": None, "children": {}}
+            continue
         out[f(nid)] = {
             "id": f(s.sensor_id), "type": f(s.type), "pv": f(s.protocol_version), "bat": f(s.battery_level),
             "sn": f(s.sketch_name), "sv": f(s.sketch_version), "hb": f(s.heartbeat),
@@ -672,6 +678,8 @@ class C11RoundTrip(_RestartWatch):
             else:
                 self.fail(f"roundtrip-differs/{fmt}/{fld}", f"{fmt} save+load changed the state, before vs after: {desc}")
         for s in im.gw.sensors.values():
+            if not hasattr(s, "new_state"):
+                continue
             if s.new_state:
                 self.fail(f"transient-resurrected/{fmt}/desired-state", f"node {s.sensor_id} has desired state after load")
             if len(s.queue):
